@@ -189,6 +189,7 @@ pub fn two_party(case: &str, seed: u64, k: &Knobs, content: Vec<u8>) -> Scenario
         min_observe_ms: 0,
         probe: false,
         final_reports: false,
+        plant: vec![],
     }
 }
 
